@@ -503,3 +503,15 @@ Definition file_part_short_first_is_all (reads : list bytes) : bytes :=
   | [] => []
   | r0 :: rest => if Nat.ltb (length r0) 512 then r0 else r0 ++ concat rest
   end.
+
+(* ---------- round 8: the URL of a retry attempt ----------
+   parseRequestURL runs for every attempt on the ingredients as they are then; a variant that keeps
+   the URL resolved by the first attempt while RawURL is unchanged carries state between attempts *)
+Definition attempt_url (base raw : bytes) (rp cp : list param) (cq rq : values) : bresult :=
+  parse_request_url base raw rp cp cq rq.
+Definition attempt_url_cached (cache : option (bytes * bresult)) (base raw : bytes) (rp cp : list param)
+  (cq rq : values) : bresult :=
+  match cache with
+  | Some (raw0, u) => if bytes_eqb raw0 raw then u else parse_request_url base raw rp cp cq rq
+  | None => parse_request_url base raw rp cp cq rq
+  end.
